@@ -134,21 +134,23 @@ def dump(x):
     return x
 
 
+NESTED_FIELDS = {"prompt_sequencer", "coord_tokenizer", "adj_list_tokenizer", "target_tokenizer", "path_tokenizer", "step_size", "edge_grouping", "edge_subset", "edge_permuter"}
+
+
 def typed(c, key=None):
-    """only the JSON typing TLC needs (one type per field name); membership in the space is judged in TLA+"""
-    if isinstance(c, dict):
-        return isinstance(c.get("cls"), str) and all(isinstance(k, str) and typed(v, k) for k, v in c.items())
-    if isinstance(c, list):
-        return key == "step_tokenizers" and all(isinstance(v, dict) and typed(v) for v in c)
+    """only the JSON typing TLC needs (ONE type per field name, else comparing two records is a TLC error);
+    membership in the space is judged in TLA+"""
     if key == "cls":
         return isinstance(c, str)
     if key in BOOL_FIELDS:
         return isinstance(c, bool)
     if key in INT_FIELDS:
         return isinstance(c, int) and not isinstance(c, bool) and -1000 < c < 1000
-    if key in ("step_tokenizers", "prompt_sequencer", "coord_tokenizer", "adj_list_tokenizer", "target_tokenizer", "path_tokenizer", "step_size", "edge_grouping", "edge_subset", "edge_permuter"):
-        return False  # must be a nested configuration
-    return isinstance(c, bool)  # an unknown scalar field: tolerated only as Boolean (it is outside the space anyway)
+    if key == "step_tokenizers":
+        return isinstance(c, list) and all(isinstance(v, dict) and typed(v) for v in c)
+    if key in NESTED_FIELDS or key is None:
+        return isinstance(c, dict) and isinstance(c.get("cls"), str) and all(isinstance(k, str) and typed(v, k) for k, v in c.items())
+    return isinstance(c, bool)  # an unknown field: tolerated only as a Boolean scalar (the configuration is outside the space anyway)
 
 
 def ckey(c):
